@@ -333,6 +333,8 @@ func depth2Family(lv []*Expr) *core.Family {
 		{"if-c-l-false", func(c, l *Expr) *Expr { return If(c, l, L(Bool(false))) }},
 		{"if-l-c-true", func(c, l *Expr) *Expr { return If(l, c, L(Bool(true))) }},
 		{"if-l-true-c", func(c, l *Expr) *Expr { return If(l, L(Bool(true)), c) }},
+		{"if-c-l-l", func(c, l *Expr) *Expr { return If(c, l, l) }},
+		{"if-c-true-true", func(c, l *Expr) *Expr { return Bin(OAnd, If(c, L(Bool(true)), L(Bool(true))), l) }},
 		{"c==l", func(c, l *Expr) *Expr { return Bin(OEq, c, l) }},
 		{"[c].contains(l)", func(c, l *Expr) *Expr { return Bin(OContains, SetLit(c), l) }},
 		{"{k:c}.k==l", func(c, l *Expr) *Expr { return Bin(OEq, Access(RecLit([]string{"k"}, []*Expr{c}), "k"), l) }},
